@@ -2,6 +2,7 @@
    usage: c14_driver impl|spec
      call d|s <hex>                           -> addr=<6 bytes>
      lsf <dst hex|-> <src hex>                -> lsf=<30 bytes> frame=<48 bytes>
+     lsfframe <lsf hex>                       -> frame=<48 bytes> crc=<CRC of the 30 bytes, 0000 if valid>
      frame <lsf hex> <n> <fn> <payload hex> <eos 0|1>   -> frame=<48 bytes>
      run <junk> <dst hex|-> <src hex> <codec2 table hex|-> <items>   (impl only)
           items: comma separated, integer = sample, t = timeout, on = ptt_on, off = ptt_off
@@ -40,6 +41,10 @@ let () =
       let lsf = if spec then c14_spec_lsf d s else c14_impl_lsf d s in
       let fr = if spec then c14_spec_lsf_frame lsf else c14_impl_lsf_frame (n_of_int 0x5a) lsf in
       Printf.printf "lsf=%s frame=%s\n" (hex_of_bytes lsf) (hex_of_bytes fr)
+    | ["lsfframe"; hl] ->
+      let lsf = bytes_of_hex hl in
+      let fr = if spec then c14_spec_lsf_frame lsf else c14_impl_lsf_frame (n_of_int 0x5a) lsf in
+      Printf.printf "frame=%s crc=%04x\n" (hex_of_bytes fr) (int_of_n (c14_spec_crc lsf))
     | ["frame"; hl; n; fn; hp; eos] ->
       let lsf = bytes_of_hex hl and p = bytes_of_hex hp and n = int_of_string n and fn = int_of_string fn and eos = eos = "1" in
       let fr = if spec then c14_spec_stream_frame lsf (n_of_int n) (n_of_int fn) p eos
